@@ -27,7 +27,7 @@ type IteratorPool struct {
 	iterators      chan iteratorPoolEntry
 	enabled        bool
 	createIterator func() *rocksdb.Iterator
-	l              sync.Mutex
+	l              sync.RWMutex
 }
 
 type iteratorPoolEntry struct {
@@ -44,6 +44,10 @@ func newIteratorPool(createIterator func() *rocksdb.Iterator) *IteratorPool {
 }
 
 func (pool *IteratorPool) get() iteratorPoolEntry {
+	// disable() flips the flag and then drains the pool: a reader that saw the pool enabled must
+	// take its iterator before the drain starts, or it would wait on an empty pool
+	pool.l.RLock()
+	defer pool.l.RUnlock()
 	if !pool.enabled {
 		return iteratorPoolEntry{iterator: pool.createIterator(), free: true}
 	}
